@@ -98,6 +98,45 @@ Theorem stft_coeff_full_spectrum :
 Proof. exact coeff_full_spectrum_l. Qed.
 Print Assumptions stft_coeff_full_spectrum.
 
+Theorem stft_real_code_coeff :
+  forall (C M : Type) (czero : C) (cconj : C -> C) (mzero : M) (mplus : M -> M -> M)
+         (phi : C -> C -> M),
+  (forall a b, mplus a b = mplus b a) ->
+  (forall a b c, mplus a (mplus b c) = mplus (mplus a b) c) ->
+  (forall a, mplus mzero a = a) ->
+  (forall x, phi x czero = mzero) ->
+  forall (D : Z) (X : Z -> C), 0 < D ->
+  (forall h, 1 <= h < D / 2 + 1 -> X (D - h) = cconj (X h)) ->
+  forall (start len : Z) (t : Z -> C), 0 <= start -> 0 <= len -> start + len <= D / 2 + 1 ->
+  code_coeff C M cconj mzero mplus phi D X start len t =
+  Some (msum M mzero mplus (fun j => phi (X (start + j)) (t j)) (range 0 len)).
+Proof. exact real_code_coeff_l. Qed.
+Print Assumptions stft_real_code_coeff.
+
+(* real banks: only the half spectrum 0..D/2 is walked (start + len <= D/2 + 1) and the
+   value is doubled; this equals the sum over the full spectrum of the Hermitian
+   response rebuilt by the documented recipe, provided the DC and Nyquist taps
+   contribute nothing (as for triangular / Fbank filters, which vanish there) *)
+Theorem stft_real_coeff_is_twice_half :
+  forall (C M : Type) (czero : C) (cconj : C -> C) (mzero : M) (mplus : M -> M -> M)
+         (phi : C -> C -> M),
+  (forall a b, mplus a b = mplus b a) ->
+  (forall a b c, mplus a (mplus b c) = mplus (mplus a b) c) ->
+  (forall a, mplus mzero a = a) ->
+  (forall x, phi x czero = mzero) ->
+  forall (D : Z) (X : Z -> C), 0 < D ->
+  (forall h, 1 <= h < D / 2 + 1 -> X (D - h) = cconj (X h)) ->
+  (forall x t, phi (cconj x) (cconj t) = phi x t) ->
+  forall (start len : Z) (t : Z -> C),
+  0 <= start -> 0 <= len -> start + len <= D / 2 + 1 ->
+  (start = 0 -> 0 < len -> forall x, phi x (t 0) = mzero) ->
+  (D mod 2 = 0 -> start <= D / 2 < start + len -> forall x, phi x (t (D / 2 - start)) = mzero) ->
+  let S := msum M mzero mplus (fun j => phi (X (start + j)) (t j)) (range 0 len) in
+  mplus S S =
+  msum M mzero mplus (fun k => phi (X k) (rebuild_real C czero cconj D start len t k)) (range 0 D).
+Proof. exact real_coeff_is_twice_half_l. Qed.
+Print Assumptions stft_real_coeff_is_twice_half.
+
 (* with the default frame length every filter keeps a DFT bin strictly inside its support *)
 Theorem default_length_keeps_a_bin :
   forall rate Dr Lr lo hi bw : R,
